@@ -71,6 +71,12 @@ def ev(e, env):
         return r
     if isinstance(e, ast.Call):
         n = au.call_name(e)
+        if n == 'isinstance' and len(e.args) == 2:
+            v = ev(e.args[0], env)
+            t = au.src(e.args[1])
+            if t == 'int':
+                return isinstance(v, int)
+            raise Unknown(au.src(e))
         if n == 'abs' and len(e.args) == 1:
             return abs(ev(e.args[0], env))
         if n == 'len' and len(e.args) == 1:
